@@ -6,7 +6,9 @@
     linearization consistent with real time (a section lies between invocation and response).
     The theorems say what every such order implies. *)
 From Coq Require Import String.
+From Coq Require Import List Relations.
 From TP Require Import Model.Prelude Extracted Model.Json Model.Api Proofs.ConcProofs.
+From TP Require Model.LockOrder Proofs.LockOrderProofs.
 
 Theorem C16_single_section_handlers : collection_mutators_atomic = true /\ toxic_mutators_atomic = true.
 Proof. split; reflexivity. Qed.
@@ -37,3 +39,45 @@ Print Assumptions C16_one_delete_wins.
 Theorem C16_update_is_two_sections : proxy_update_two_sections = true.
 Proof. reflexivity. Qed.
 Print Assumptions C16_update_is_two_sections.
+
+(** No deadlock among the locks. [lock_edges] is regenerated from the working tree: every pair
+    (held, requested) over all functions of the two packages - the mutexes of the proxy collection,
+    a proxy, its connection list, its toxic collection and the toxic registry, plus the tokens of
+    goroutines somebody waits for (the two tombs of the accept loop, the [started] handshake).
+    The relation is acyclic (decided by computing a longest-path ranking inside Coq) ... *)
+Theorem C16_lock_order_acyclic : LockOrder.lock_order_ok lock_edges = true.
+Proof. exact LockOrderProofs.extracted_lock_order_ok. Qed.
+Print Assumptions C16_lock_order_acyclic.
+
+(** ... hence in every state - any number of threads, of proxies, of held locks - whose threads
+    request while holding only what the relation allows, the waits-for graph has no cycle ... *)
+Theorem C16_no_cycle_of_waiting_requests : forall st,
+  LockOrderProofs.follows lock_edges st ->
+  forall i, ~ clos_trans nat (LockOrderProofs.waits_for st) i i.
+Proof. exact LockOrderProofs.extracted_no_cycle. Qed.
+Print Assumptions C16_no_cycle_of_waiting_requests.
+
+(** ... and from every thread, following who holds what it waits for, a thread that waits for no
+    lock is reached within [bound] steps: somebody can always run *)
+Theorem C16_somebody_runs : forall st i,
+  LockOrderProofs.follows lock_edges st ->
+  LockOrder.blocker st (LockOrder.chase (LockOrder.bound (LockOrder.compute_ranks lock_edges)) st i) = None.
+Proof. exact LockOrderProofs.extracted_chains_end. Qed.
+Print Assumptions C16_somebody_runs.
+
+(** the premise is met by a stop request waiting for an accept loop that waits for a toxic request *)
+Example C16_lock_order_nonvacuous :
+  LockOrder.followsb lock_edges LockOrderProofs.stop_state = true /\
+  LockOrder.blocker LockOrderProofs.stop_state 0 = Some 1%nat /\
+  LockOrder.chase 3 LockOrderProofs.stop_state 0 = 3%nat /\
+  LockOrder.blocker LockOrderProofs.stop_state 3 = None.
+Proof. exact LockOrderProofs.stop_state_follows. Qed.
+
+(** and it is tight: one more edge (the proxy's lock requested under the toxic collection's) admits
+    a state in which everybody waits, and the check rejects the relation *)
+Example C16_inverted_order_deadlocks :
+  let es := (("ToxicCollection", "Proxy")%string :: lock_edges) in
+  LockOrder.lock_order_ok es = false /\ LockOrder.followsb es LockOrderProofs.inverted_state = true /\
+  forallb (fun i => match LockOrder.blocker LockOrderProofs.inverted_state i with Some _ => true | None => false end)
+          [0; 1; 2; 3]%nat = true.
+Proof. exact LockOrderProofs.inverted_order_deadlocks. Qed.
